@@ -41,6 +41,7 @@ fn main() {
         "ord-props" => ord::props(rest),
         "sk-props" => sk::props(rest),
         "pmh-props" => pmh::props(rest),
+        "pmh-mc" => pmh::mc(rest),
         "pmh-props-replay" => pmh::props_replay(rest),
         "mle-cases" => mle::cases(rest),
         "mle-replay" => mle::replay(rest),
